@@ -524,11 +524,17 @@ func (ex *Exec) byContract(fr *Frame, st *State, ci *ssa.Call, ct *Contract, key
 	// ensures clauses of the form [G ==>] L == R (or same(L)) over pointer / interface
 	// locations re-point the location: they are applied as (guarded) assignments first
 	for _, c := range ct.Ensures {
+		if c.AtReturn > 0 {
+			continue
+		}
 		for _, as := range flattenAssigns(c.Expr, nil) {
 			ex.applyPtrAssign(cpost, st, as)
 		}
 	}
 	for _, c := range ct.Ensures {
+		if c.AtReturn > 0 {
+			continue // return-specific clauses mention the callee's locals; they are not visible to callers
+		}
 		ex.assume(st.pc, cpost.bool(c.Expr))
 	}
 	return res
